@@ -51,4 +51,7 @@ def generate(rng, tier):
         rng.shuffle(rq)
         ops.append('op logline %s %d %d %s %d %d %d | %s | %s' % (kind, rng.randrange(2), mode, key, rng.choice([1, 2]),
                    rng.choice([2, 2, 3, 5, 11]), rng.choice([1, 4]), ' '.join(rq), ' '.join(rp)))
+        if kind == 'reply' and rng.random() < 0.25:
+            # the line written when a request is abandoned without an answer: replylog(request, server, request)
+            ops.append('op logline reply %d %d %s 1 1 1 | %s | %s' % (rng.randrange(2), mode, key, ' '.join(rq), ' '.join(rq)))
     return [(cid, ['cfg nopipe'] + l) for cid, l in batch(ops, 'log', 40)]
